@@ -175,7 +175,9 @@ def run(ctx, rep):
 
             hn, _tr = c01._owner_handle(F, b)  # the impl the site sits in, or the common owner of a private helper's callers
             ik = "%s/%s" % (b["key"], cls)
-            if hn == "Arc":
+            from ..facts import OWNING_HANDLES
+
+            if hn == "Arc" or (cls == model.ATOMIC_RMW_ADD and _tr == "core::clone::Clone" and hn in OWNING_HANDLES):  # an increment needs no ordering (R-ORD-INC): any owning handle's own Clone may take it
                 rep.ok("R-FUNNEL", ik, cfg=tag)
             else:
                 rep.bad("R-FUNNEL", ik, "a read-modify-write of the count word lives outside Arc's own clone/release code: the lemma's premises would have to be re-established for it", F.loc(b, t["span"]), tag)
